@@ -196,11 +196,12 @@ CLAIMS.update({
 
 # clauses added after the independently seeded changes and benign refactorings (DESIGN.md section 10)
 ADDED = {
-    "C01": " Also decided: the SAT solver handed to an encoding call is created inside every loop that contains the call (no component is encoded on top of another); a range-based maximal-extension computer always runs on a solver filled by encode_constraints_and_range; nothing reachable from the stage solver's single-extension method uses an admissibility-based computation.",
-    "C02": " Also decided (scoped to what the credulous entry points can reach, with their constant flags followed into helpers): an argument turned into a SAT literal belongs to the framework that was encoded; fresh solver per encoding; range search on a range encoding; the stage solver is conflict-free based; every listed argument is considered (no early `break`, no loop-carried switch-off).",
+    "C01": " Also decided: the callers of a helper returning a tuple with several same-typed components read each component in the same role (no swapped destructuring); the SAT solver handed to an encoding call is created inside every loop that contains the call (no component is encoded on top of another); a range-based maximal-extension computer always runs on a solver filled by encode_constraints_and_range; nothing reachable from the stage solver's single-extension method uses an admissibility-based computation.",
+    "C02": " Also decided (scoped to what the credulous entry points can reach, with their constant flags followed into helpers): an argument turned into a SAT literal belongs to the framework that was encoded; fresh solver per encoding; range search on a range encoding; the stage solver is conflict-free based; every listed argument is considered (no early `break`, no loop-carried switch-off); blocking clauses, selector freshness and retirement of query-local selectors in the range-based acceptance search.",
     "C03": " Also decided (scoped to what the skeptical entry points can reach): literal provenance, fresh solver per encoding, range search on a range encoding, stage layering, every listed argument considered.",
     "C04": " Also decided: certificate completion of the range-based solvers uses the range encoding; the dynamic solvers' answer caches (which hold the certificates) are invalidated by every update variant.",
     "C05": " Also decided: a command line rejected by clap returns Ok only for a help/version request; the answer grammar is decided as a language inclusion on the extracted output language of each writer method (F13), with no bare Write::write.",
+    "C06": " Also decided, one structural necessary condition per configuration axis (not the equality of statuses itself): encoding - disjoint variable families and the reference clause shapes for each encoder (rules of C10), and the CLI picks the encoder of the base semantics for every --encoding value; certificate flag - the shortcut used only without a certificate quantifies over the listed arguments like the full search; back end / repetition - searches constrain the solver only through the split of the current set and the selector, and a selector made for one SAT call is retired negatively (query-local clauses never outlive the call).",
     "C07": " Also decided: an accumulating loop over the query list is never left early, and the per-component selection of listed arguments is not switched off by a flag set in an earlier iteration.",
     "C08": " Also decided: a query reads only the cache of its own kind; the guarded clauses issued when an argument is re-encoded by the selector-based encoder have exactly the shapes of the static complete / stable encodings (F12), with the attacker ids of iter_attacks_to(argument).",
     "C09": " Also decided: the freshness test guarding the encoder tables is a by-label look-up or ONE counting function compared before/after; the cache barriers and log/replay obligations of C08; index-pairing of the framework store.",
@@ -209,7 +210,7 @@ ADDED = {
     "C14": " Also decided: the output language of write_framework equals (arg(L).\\n)*(att(L,L).\\n)* (F13), declarations are written in iterator order with nothing filtered or sorted, and no writer uses a bare Write::write.",
     "C15": " Also decided: the integer fields n_vars() is computed from are only ever raised (max / increment / guarded store).",
     "C16": " Also decided: the waiting thread never feeds the child's stdin itself before the piped stdout is drained.",
-    "C18": " Also decided: the stored model is replaced together with the stored set, from the same SAT answer; a query method delegates to at most one other query method per path.",
+    "C18": " Also decided: the stored model is replaced together with the stored set, from the same SAT answer; a query method delegates to at most one other query method per path; a retired selector was created in the iteration that retires it; the same-range search keeps the polarity of the two halves of the range split; the installed increase/discard functions add nothing but the selector to those halves; a CO/ST query never starts further queries per listed argument.",
 }
 for _k, _v in ADDED.items():
     CLAIMS[_k]["text"] += _v
